@@ -31,6 +31,8 @@ func All() []*G {
 		{Name: "ed25519", Group: edwards25519.NewBlakeSHA256Ed25519(), MulNil: true, Base: true, Pick: true, Embed: true, Family: "ed25519", Order: OrderEd25519},
 		{Name: "ed25519-vt", Group: edwards25519.NewBlakeSHA256Ed25519(), VarTime: true, MulNil: true, Base: true, Pick: true, Embed: true, Family: "ed25519", Order: OrderEd25519},
 		{Name: "ed25519vartime", Group: edwards25519vartime.NewBlakeSHA256Ed25519(false), MulNil: true, Base: true, Pick: true, Embed: true, Slow: true, Family: "ed25519", Order: OrderEd25519},
+		// the extended-coordinates implementation of the same curve (exported, not wrapped in a suite of its own)
+		{Name: "ed25519vartime-ext", Group: new(edwards25519vartime.ExtendedCurve).InitCurve(edwards25519vartime.ParamEd25519(), false), MulNil: true, Base: true, Pick: true, Embed: true, Slow: true, Family: "ed25519", Order: OrderEd25519},
 		{Name: "p256", Group: p256.NewBlakeSHA256P256(), MulNil: true, Base: true, Pick: true, Embed: true, Family: "p256", Order: OrderP256},
 		{Name: "qr512", Group: p256.NewBlakeSHA256QR512(), MulNil: true, Base: true, Pick: true, Embed: true, Family: "qr512", Order: OrderQR512},
 	}
